@@ -126,6 +126,14 @@ def global_rewrites(text, fired):
             fired.append('R1:expect->rt_unwrap')
             i = cl + 1
             continue
+        mm = re.match(r'\.add_attributes?\s*\(', text[i:i + 20]) if mask[i] and text[i] == '.' else None
+        if mm:
+            ob = i + mm.end() - 1
+            cl = rs.match_close(text, mask, ob)
+            out.append('.add_attributes_opaque()')
+            fired.append('R2:add_attribute(s)->add_attributes_opaque (event attributes are not verified)')
+            i = cl + 1
+            continue
         out.append(text[i])
         i += 1
     return ''.join(out)
